@@ -79,4 +79,8 @@ def run(ctx):
                 I6.run_fn(c06.FN)
                 c06.whitelist(cfg, crate, crate.body(c06.FN), I6, rep, "%s|%s" % (cfg, c06.FN))
             common.borrow_rules(rep, _wl, "C06.", "C12.csr")
+        # "validity windows": the instants validators compare with the verification time are the caller's instants only
+        # if both bounds go through the shared time writer (UTC instant, whole seconds of the *same* value, form by UTC year)
+        import c09
+        common.borrow_rules(rep, lambda: (c09.single(cfg, crate, rep), c09.helper(cfg, crate, rep)), "C09.", "C12.time")
         rep.sample({"rule": "C12", "cfg": cfg, "sites": sorted(want_keys.values())})
